@@ -1,11 +1,12 @@
 SPECIFICATION Spec
 CONSTANTS
   MaxN = 4
-  BoxStride = 7
+  BoxStride = 9
   CatStride = 5
   PairStride = 20
   SameStride = 10
   AttrStride = 40
+  TripleStride = 30
   ShapeFrom = "named dims"
 CONSTRAINT Export
 INVARIANT ImplRefinesReq
@@ -14,6 +15,7 @@ INVARIANT LawBin
 INVARIANT LawBoxIsCentreRule
 INVARIANT LawCellsMonotone
 INVARIANT LawInIsTouched
+INVARIANT LawSameBins
 INVARIANT LawSatisfiable
 PROPERTY Terminates
 CHECK_DEADLOCK FALSE
